@@ -17,6 +17,7 @@ block is copied to the output as is (prelude, spec functions, lemmas, impl heade
     <proof { ... } lines>
     //@ after <anchor text>           (E4: inserted after the line containing the anchor)
     //@ endloop <n>                   (E4: inserted after the line that closes the body of the n-th loop)
+    //@ bodyend <n>                   (E4: inserted as the last thing inside the body of the n-th loop)
     //@ tail                          (E4: inserted before the closing `}` of the body)
     //@ body                          (E4: inserted right after the opening `{` of the body)
     //@ end
@@ -351,7 +352,7 @@ def instantiate(template_path, repo_root, variant='main'):
                     raise ExtractError('%s:%d stray end' % (unit, tl[i][2]))
                 emit_extract(gen, cur, repo_root, cur.unit)
                 cur, blk, in_with = None, None, False
-            elif cmd in ('spec', 'loop', 'endloop', 'before', 'after', 'tail', 'rewrite', 'head', 'body'):
+            elif cmd in ('spec', 'loop', 'endloop', 'bodyend', 'before', 'after', 'tail', 'rewrite', 'head', 'body'):
                 if cur is None:
                     raise ExtractError('%s:%d directive outside extract' % (unit, tl[i][2]))
                 arg = s[3:].strip()[len(cmd):].strip()
@@ -459,7 +460,7 @@ def emit_extract(gen, ex, repo_root, unit):
                 replaces.append((m.start(), m.end(), m.group(0), after) + (('any',) if cnt_opt == 'any' else ()))
             gen.rewrites.append({'item': ex.name, 'before': before, 'after': after, 'count': cnt,
                                  'at': '%s:%d' % (ex.file, line_of(src, start + occ[0]))})
-        elif bodyless and b.kind in ('loop', 'endloop', 'before', 'after', 'tail', 'body'):
+        elif bodyless and b.kind in ('loop', 'endloop', 'bodyend', 'before', 'after', 'tail', 'body'):
             continue  # proof splices are meaningless in an unverified body
         elif b.kind == 'spec':
             # before the body `{`, after the where clause
@@ -471,6 +472,16 @@ def emit_extract(gen, ex, repo_root, unit):
             if k < 1 or k > len(heads):
                 raise ExtractError('lost anchor: loop %d of fn %s (%d loops found)' % (k, ex.name, len(heads)))
             inserts.append((heads[k - 1], order, '\n' + b.text() + '\n', b))
+        elif b.kind == 'bodyend':
+            # last thing inside the body of the n-th loop (before the line of its closing brace)
+            if heads is None:
+                heads = loop_heads(m_item, rel_open + 1)
+            k = int(b.arg.split()[0])
+            if k < 1 or k > len(heads):
+                raise ExtractError('lost anchor: loop %d of fn %s (%d loops found)' % (k, ex.name, len(heads)))
+            close = match_brace(m_item, heads[k - 1])
+            pos = item.rfind('\n', 0, close) + 1
+            inserts.append((pos, order, b.text() + '\n', b))
         elif b.kind == 'endloop':
             # right after the `}` that closes the body of the n-th loop (still inside the enclosing block)
             if heads is None:
